@@ -135,7 +135,8 @@ func qciRecord(out io.Writer, args []string) error {
 		for k := 0; k <= *levels; k++ {
 			cs = append(cs, float64(k)/float64(*levels))
 		}
-		cs = append(cs, -0.5, 1.5, 0.95, 0.99, 0.999, rng.Float64(), rng.Float64())
+		cs = append(cs, -0.5, 1.5, 0.95, 0.99, 0.999, rng.Float64(), rng.Float64(),
+			math.Nextafter(1, 0), 1-math.Ldexp(1, -52), 1-1e-15, 1-1e-13, 1-1e-10, math.Nextafter(0, 1), 1e-300) // legal levels next to both ends
 		call := func(c float64) stats.QuantileCIResult {
 			r := stats.QuantileCI(d.n, q, c)
 			e := base
